@@ -76,8 +76,13 @@ RULE = ("the lattice emitter kind (GaussianEmitter, IsoLineEmitter, GeneticAlgor
         "(Grid, CVT, SlidingBoundaries, Proximity) x archive state (empty, one elite, many, cleared again) is walked "
         "point by point (thorough: the full product; quick: every (kind, dtypes, bounds) point with archive kind and "
         "state rotating so that all pairs occur); batch size, dimension, seeds, sigma (zero in a third of the "
-        "clipping cases), initial_solutions vs x0, restart rule and the 5 (quick) to 30 (thorough) operations "
-        "(ask/tell iteration, external add, clear) are drawn at random. A case is non-trivial when it asks at least "
+        "clipping cases), initial_solutions vs x0 (handed over as a list, an ndarray of exactly the solution dtype or of "
+        "the other dtype; ndarrays are overwritten by the caller right after construction), restart rule and the 5 "
+        "(quick) to 30 (thorough) operations (ask/tell iteration, iteration in which nothing is inserted, external add, "
+        "clear) are drawn at random; every batch a clipping emitter's ask() hands out is overwritten in place after "
+        "it was read, and initial_solutions cases end with clear / ask sequences, so that the configured initial "
+        "solutions must come back on every later empty archive. Stratum pycma_shared: two pycma_es emitters (different "
+        "batch sizes, bounds, seeds) built from ONE shared es_kwargs dict, run past their restarts. A case is non-trivial when it asks at least "
         "once on a non-empty archive and the configuration has a finite bound or mixed dtypes; counted once per "
         "distinct operation list (the first entry names the configuration).")
 PARTIAL = [
